@@ -70,6 +70,7 @@ pub fn dispatch(args: &[String]) -> i32 {
         "replay-identity" => ident::replay(&a),
         "replay-codegen" => codegen::replay(&a),
         "codegen-cancel" => codegen::cancel(&a),
+        "codegen-relay" => codegen::relay(&a),
         "codegen-deadline" => codegen::deadline(&a),
         "replay-router" => router::replay(&a),
         "replay-rate" => tower::replay_rate(&a),
